@@ -1733,9 +1733,9 @@ func r0114(c *an.Ctx, rule string) {
 	sub := an.NewCtx(c.Prog, c.Property, c.Tier)
 	r052(sub)
 	r065as(sub, "R05.6")
-	r057(sub)          // extra update paths only narrow a mask that is there: a nil mask stays "all fields"
-	r058(sub, "R05.8") // masks reach fmutils normalised (reset/update masks naming a path and one it covers)
-	r068(sub, "R06.8") // an empty mask is not "no mask"
+	r057(sub)            // extra update paths only narrow a mask that is there: a nil mask stays "all fields"
+	r058(sub, "R05.8")   // masks reach fmutils normalised (reset/update masks naming a path and one it covers)
+	r068(sub, "R06.8")   // an empty mask is not "no mask"
 	r0511(sub, "R05.11") // WithMore… options accumulate: two of them on one write both count
 	r0513(sub, "R05.13") // a masked write naming a map field does not panic
 	n := 0
@@ -1851,6 +1851,10 @@ func r0119(c *an.Ctx, rule string) {
 		top := fn
 		for top.Parent() != nil {
 			top = top.Parent()
+		}
+		// (options only: a method that completes the request it computed itself, as Add might, is not a caller's choice)
+		if res := top.Signature.Results(); res.Len() != 1 || !strings.HasSuffix(an.NamedTypeName(res.At(0).Type()), "pkg/resource.WriteOption") {
+			continue
 		}
 		an.Instrs(fn, func(in ssa.Instruction) {
 			st, ok := in.(*ssa.Store)
